@@ -46,3 +46,4 @@ META = dict(
     design_ref="DESIGN.md §4 C17",
     technique="CBMC bounded symbolic execution of real sort_by_file.c / mkfs.c pack_file / process_block, SAT",
 )
+META["text"] += ' Also decided: the sort file name decoder against an unquoting specification, the flag plumbing through the block processor front end, and the rule that a fragment block is always stored.'
